@@ -17,8 +17,18 @@ def write_shards(records, name, nshards=16):
     return paths
 
 
-REJ = re.compile(r'^<<"REJECT", (.+?), (\{.*\})>>$')
-JUD = re.compile(r'^<<"JUDGED", (\d+), (\d+)>>$')
+REJ = re.compile(r'<<\s*"REJECT",\s*"([^"]+)",\s*(\{[^}]*\})\s*>>')      # TLC wraps long values over several lines
+JUD = re.compile(r'<<\s*"JUDGED",\s*(\d+),\s*(\d+)\s*>>')
+
+
+def parse_rejects(out):
+    """{record id: set of clause names} from TLC output; raises if a REJECT marker could not be parsed"""
+    rej = {}
+    for m in REJ.finditer(out):
+        rej[m.group(1)] = set(re.findall(r'"(\w+)"', m.group(2)))
+    if out.count('"REJECT"') != len(REJ.findall(out)):
+        raise ValueError("unparsed REJECT line in TLC output")
+    return rej
 
 
 def judge(records, spec_dir, module, cfg, name, res, nshards=16, heap="1g", timeout=3600, keep=False):
@@ -33,16 +43,18 @@ def judge(records, spec_dir, module, cfg, name, res, nshards=16, heap="1g", time
     rejects, judged = {}, 0
     for r, p in zip(outs, paths):
         got = False
-        for line in r.out.splitlines():
-            m = REJ.match(line.strip())
-            if m:
-                rid = m.group(1).strip('"')
-                cl = set(re.findall(r'"(\w+)"', m.group(2)))
-                rejects[rid] = cl
-            m = JUD.match(line.strip())
-            if m:
-                judged += int(m.group(1))
-                got = True
+        try:
+            rj = parse_rejects(r.out)
+        except ValueError as e:
+            res.machinery(f"trace spec {module}: {e} for {p}")
+            rj = {}
+        m = JUD.search(r.out)
+        if m:
+            judged += int(m.group(1))
+            got = True
+            if int(m.group(2)) != len(rj):
+                res.machinery(f"trace spec {module}: {m.group(2)} records rejected but {len(rj)} parsed for {p}")
+        rejects.update(rj)
         if not got:
             res.machinery(f"trace spec {module} gave no verdict for {p}:\n" + r.out[-3000:])
         res.add_tlc(r)
